@@ -165,6 +165,10 @@ def run_impl(exe, scen_text, reporter, workdir, env=None, timeout=60):
     e = dict(os.environ)
     e.pop("CGREEN_NO_FORK", None)
     e.pop("CGREEN_PER_TEST_TIMEOUT", None)
+    for l in scen_text.split("\n"):
+        if l.startswith("kill "):
+            w = l.split(" ")
+            e["CGREEN_VERIF_KILL"] = f"{w[1]}:{w[2]}:{w[3]}:{w[4]}"
     if env:
         e.update(env)
     o = Obs()
